@@ -218,15 +218,20 @@ def check_case(case) -> Obs:
     if kind == "rd":
         M, vol, md = case["M"], case["volume"], case["multi_disp"]
         wl = robotools.BaseWorklist(max_volume=M)
-        obs.units = 1
-        wl.reagent_distribution("S", 1, 8, "D", 1, 96, volume=vol, multi_disp=md)
-        f = wl[-1].split(";")
-        got = int(f[14])
-        if not (1 <= got <= md) or Fraction(got) * Fraction(vol) > Fraction(M) * (1 + SLACK):
-            obs.bad("C06/multi-disp", f"reagent_distribution(volume={vol}, multi_disp={md}, max_volume={M}) plans {got} multi-dispenses")
-        fits = max(1, int(Fraction(M) / Fraction(vol) + SLACK))
-        if got != min(md, fits):
-            obs.bad("C06/multi-disp-reduced-too-far", f"volume={vol}, multi_disp={md}, max_volume={M}: emitted {got}, expected min({md}, {fits})")
+        obs.units = 0
+        # several distributions on the SAME worklist object (the reduction must not depend on earlier calls),
+        # with long and short destination ranges and exclusions
+        calls = [(vol, md, 1, 96, None), (vol, md, 1, 3, None), (vol, md + 1, 5, 20, [6, 7, 8, 9, 10, 11, 12, 13]), (vol, md, 1, 96, None)]
+        for v_, md_, d0, d1, excl in calls:
+            obs.units += 1
+            wl.reagent_distribution("S", 1, 8, "D", d0, d1, volume=v_, multi_disp=md_, exclude_wells=excl)
+            f = wl[-1].split(";")
+            got = int(f[14])
+            if not (1 <= got <= md_) or Fraction(got) * Fraction(v_) > Fraction(M) * (1 + SLACK):
+                obs.bad("C06/multi-disp", f"call {obs.units} on one worklist: reagent_distribution(volume={v_}, multi_disp={md_}, max_volume={M}, destinations {d0}..{d1} minus {excl}) plans {got} multi-dispenses")
+            fits = max(1, int(Fraction(M) / Fraction(v_) + SLACK))
+            if got != min(md_, fits):
+                obs.bad("C06/multi-disp-reduced-too-far", f"call {obs.units}: volume={v_}, multi_disp={md_}, max_volume={M}: emitted {got}, expected min({md_}, {fits})")
         obs.nontrivial = md * vol > M
         return obs
 
